@@ -28,15 +28,36 @@ RULE = ('(a) primitive cases: sample sequence (unsorted, duplicate times with di
         'changes, histories of get / cache[name] / _set_keep over mjd, lst, az, el, ra, dec, parangle, target_x/y (5 '
         'projections x azel/radec), u, v, w: every returned value against the per-dump documented function (one scalar '
         'katpoint call per dump) placed by the Coq model; (g) the public properties d.mjd ... d.w of HDF5 v3 data sets '
-        '(single and concatenated) with irregular recorded timestamps under dump selections. A case is non-trivial when at '
+        '(single and concatenated) with irregular recorded timestamps under dump selections; (h) public-API histories '
+        '(get / cache[name] / _set_keep) on a SensorCache whose keep is a bool mask (also of a wrong or zero length), a '
+        'slice (None / negative / out-of-range bounds, steps +-1..3 and 0), an int, an index list (negative, repeated, out of '
+        'range, empty) or the constructor default, with 0-4 virtual-sensor templates (the registered shapes: literals, '
+        '[abc] classes, {var}) in random dict order served by recorder functions, names that are instances of a template or '
+        'instances with a suffix / prefix added, a slash inserted, a character dropped / case-swapped / replaced, truncated, '
+        'and a sensor store that is None / empty / set, backed by an in-process fake of `requests` holding records of '
+        'sensors whose names extend each other, timed inside / on / one quarter second outside the query window, with '
+        'every status, duplicates, a failing connection or HTTP status; (i) the real VIRTUAL_SENSORS registries of the five '
+        'modules against names derived from their templates; (j) ConcatenatedSensorCache.get of a sensor absent from 1+ of '
+        '2-4 parts whose other parts hold a float / int / bool array assigned directly or a float / int / bool / str '
+        'getter, with initial_value float / int / bool / str (also empty) and categorical None / True / False, selected and '
+        'not; (k) visdatav4 applied_delay / applied_phase from 1-5 CBF updates (before, between and after the dumps). '
+        'A case is non-trivial when at '
         'least one numeric extraction with >= 2 usable samples (or a dummy fill, or a non-empty virtual sensor) is compared; '
         'distinct by canonical JSON')
 ASSUMPTIONS = ['float64 exactness domain: times on a 1/4 s grid (epoch 0 or 1.5e9), node gaps <= 24 grid steps, values '
                'integer multiples of lcm(1..24) below 2^44 so that np.interp is exact and equality is compared',
                'categorical conversion itself is C10: only the decision categorical/numeric and the dummy value are compared',
-               'virtual sensor patterns are exact names (regex templates and the prefix behaviour of re.match are not modelled); '
-               'the katpoint coordinate functions are not verified',
-               'keep is a boolean mask of the length of the timestamps (what DataSet passes)',
+               'virtual sensor templates lie in the regex subset of the registered ones (literals [A-Za-z0-9_/], classes of such '
+               'characters, {ident} variables with distinct names); the katpoint coordinate functions are not verified',
+               'in the histories (b), (c), (f) keep is a boolean mask of the length of the timestamps (what DataSet passes); '
+               'the other forms are exercised by (h) on numeric sensors only (indexing CategoricalData is C10)',
+               'the sensor store is an in-process stand-in for the requests module: it answers with the records of every sensor '
+               'whose name starts with the requested one and whose time lies in the closed window; values are floats; its far '
+               'records repeat the value of the first / last surviving near record so that float64 np.interp stays exact',
+               'ASCII sensor names (str.isidentifier is modelled on ASCII)',
+               'applied_delay / applied_phase: float64 results compared with the exact rational model within 1e-9 relative '
+               '(update times on a 1/16 s lattice, never within 1e-6 s before a dump); applied_gain goes through the '
+               'categorical path (C10) and is only checked for its template / function',
                'parts of a concatenated cache are built with equal property maps (independent dict objects)',
                'built-in virtual sensors: floats are compared with the documented per-dump value within an absolute tolerance '
                '(1e-9 days for mjd, also against the exact t/86400+40587 of the model; 1e-9 rad for lst/az/el/ra/dec/parangle '
@@ -45,8 +66,6 @@ ASSUMPTIONS = ['float64 exactness domain: times on a 1/4 s grid (epoch 0 or 1.5e
                'katpoint/ephem themselves are trusted (the expected values come from scalar katpoint calls)',
                'np.row_stack (removed in NumPy 2, still called by katpoint 0.10.2 Target.uvw_basis) is aliased to np.vstack '
                'while the built-in virtual sensors run, otherwise u/v/w cannot be evaluated at all and are skipped',
-               'the v4-only virtual sensors Correlator/Inputs/{inp}/applied_delay|applied_phase|applied_gain produce sensor '
-               'getters / categorical data that go through the ordinary extraction path and are not exercised',
                'sensor names are non-empty printable ASCII without "*" and without a newline (a name containing "*" is '
                'its own wildcard key; "$" also matches before a trailing newline)']
 
@@ -1466,7 +1485,7 @@ def gen_primitive(rng):
 
 NAMES = ['a/x', 'a/y', 'b/x', 'b/yx']
 # names that EXTEND another name to the right / left / both (a wildcard key fitting 'a/x' must not leak onto them)
-XNAMES = NAMES + ['a/xb', 'ba/x', 'ba/xb', 'A/x']
+XNAMES = NAMES + ['a/xb', 'ba/x', 'ba/xb', 'A/x', 'x/x']      # 'x/x': add_aliases replaces EVERY occurrence of the suffix
 KEYS = ['a/x', '*x', 'a/*', '*', 'b/*x', '*/y*', 'zz', 'a*x', '*/x', 'a/x*', '*a/x', 'a.*', 'b*/*x']
 VNAMES = ['v/p0', 'v/q0', 'v/r0', 'w/s0']
 
@@ -1514,7 +1533,7 @@ def gen_cache(rng, kinds=('simple', 'rec', 'h5', 'telstate'), names=XNAMES, allo
 
 def gen_ops(rng, c, n=None):
     names = [n_ for (n_, _) in c['raw']] + [v for vs in c['virt'] for v in vs['names']]
-    allnames = names + ['a/z', 'b/z', 'zz/none'] + NAMES[:2]
+    allnames = names + ['a/z', 'b/z', 'zz/none', 'z/z', 'x/z'] + NAMES[:2]
     ops = []
     T = len(c['ts'])
     for _ in range(n or rng.randint(1, 8)):
@@ -1590,6 +1609,10 @@ def scripted():
                            ('item', 'a/x'), ('setkeep', [True] * 6), ('item', 'a/x'), ('get', 'a/x', False, True, {'off': -4})]))
         out.append((base, [('get', 'a/x', False, True, {'off': 4}), ('setgetter', 'a/x', 0),
                            ('get', 'a/x', False, True, {'off': 4}), ('get', 'a/x', False, True, {})]))
+        # add_aliases replaces EVERY occurrence of the original suffix in the name (str.replace), not only the suffix
+        twice = dict(base, raw=[('x/x', 0), ('ax/bx', 0)], props=[])
+        out.append((twice, [('alias', 'z', 'x'), ('get', 'z/z', False, True, {}), ('get', 'x/z', False, True, {}),
+                            ('get', 'az/bz', False, True, {}), ('get', 'ax/bz', False, True, {}), ('item', 'x/x')]))
     return out
 
 
@@ -1637,6 +1660,9 @@ def _fix_case(case):
 
 
 def run_case(ctx, case):
+    if case.get('kind') in ('api', 'registry', 'fill', 'v4delay'):
+        from props import c12_ext
+        return c12_ext.run_case(ctx, case)
     if case.get('kind') == 'unpack':
         return run_unpack(ctx, case)
     if case.get('kind') == 'builtin':
@@ -1727,6 +1753,8 @@ def run(ctx):
         ctx.note_case(('concat', json.dumps([cs, ops], sort_keys=True, default=str)), nontrivial=nt,
                       sample=dict(kind='concat', parts=len(cs), ops=[o[:2] for o in ops]))
         ctx.count('concat_parts=%d' % len(cs))
+    from props import c12_ext
+    c12_ext.run(ctx)
     if ctx.tier == 'thorough':
         cross_check_in_coq(ctx)
 
@@ -1760,6 +1788,7 @@ def replay(ctx, doc):
     import logging
     logging.getLogger('katdal').setLevel(logging.ERROR)
     case = doc.get('case') or doc.get('witness') or {}
-    if case.get('kind') in ('single', 'wild', 'concat', 'primitive', 'unpack', 'props', 'builtin', 'dataset'):
+    if case.get('kind') in ('single', 'wild', 'concat', 'primitive', 'unpack', 'props', 'builtin', 'dataset', 'api', 'registry',
+                            'fill', 'v4delay'):
         run_case(ctx, case)
         ctx.note_case(('replay', json.dumps(case, sort_keys=True, default=str)))
